@@ -114,6 +114,11 @@ type ServiceCore struct {
 
 	// client id keyed list of roles
 	roles sync.Map
+
+	// serialises every change of clients and access controls together with the file write that persists it:
+	// two requests that update and persist at the same time would otherwise write their snapshots in the wrong
+	// order and the later registration or ACL would be gone after a restart
+	persistLock sync.Mutex
 }
 
 func NewServiceCore(env *conf.Config) *ServiceCore {
@@ -330,13 +335,12 @@ func (serviceCore *ServiceCore) CreateJWTForTokenRequest(audience string) (strin
 }
 
 func (serviceCore *ServiceCore) RegisterClient(clientInfo *ClientInfo) {
-	var mut sync.Mutex
-	mut.Lock()
-	defer mut.Unlock()
+	serviceCore.persistLock.Lock()
+	defer serviceCore.persistLock.Unlock()
 
 	if clientInfo.Deleted {
 		serviceCore.clients.Delete(clientInfo.ClientID)
-		serviceCore.DeleteClientAccessControls(clientInfo.ClientID)
+		serviceCore.deleteClientAccessControls(clientInfo.ClientID)
 	} else {
 		serviceCore.clients.Store(clientInfo.ClientID, clientInfo)
 	}
@@ -356,10 +360,13 @@ func (serviceCore *ServiceCore) GetClients() map[string]*ClientInfo {
 }
 
 func (serviceCore *ServiceCore) DeleteClientAccessControls(clientID string) {
-	var mut sync.Mutex
-	mut.Lock()
-	defer mut.Unlock()
+	serviceCore.persistLock.Lock()
+	defer serviceCore.persistLock.Unlock()
+	serviceCore.deleteClientAccessControls(clientID)
+}
 
+// deleteClientAccessControls is DeleteClientAccessControls for a caller that holds persistLock
+func (serviceCore *ServiceCore) deleteClientAccessControls(clientID string) {
 	serviceCore.accessControls.Delete(clientID)
 
 	jsonData, _ := json.Marshal(serviceCore.GetAllAccessControls())
@@ -367,9 +374,8 @@ func (serviceCore *ServiceCore) DeleteClientAccessControls(clientID string) {
 }
 
 func (serviceCore *ServiceCore) SetClientAccessControls(clientID string, acls []*AccessControl) {
-	var mut sync.Mutex
-	mut.Lock()
-	defer mut.Unlock()
+	serviceCore.persistLock.Lock()
+	defer serviceCore.persistLock.Unlock()
 
 	serviceCore.accessControls.Store(clientID, acls)
 
